@@ -682,6 +682,8 @@ pub const ALPHABETS: &[&[u32]] = &[
     &[0x61, 0x00, 0x7F, 0x41],
     &[0x61, 0x7A, 0x41, 0x5A, 0x6D],
     &[0x3B1, 0x391, 0x1F80, 0x1F88, 0x61],
+    &[0x40, 0x60, 0x5B, 0x7B, 0x5C, 0x7C, 0x5D, 0x7D, 0x5E, 0x7E, 0x5F, 0x7F],
+    &[0x61, 0x41, 0x5B, 0x7B, 0x7A, 0x5A, 0x60, 0x40],
 ];
 
 pub const PROPS: &[&str] = &[
@@ -1019,4 +1021,192 @@ pub fn gen_start(src: &mut Src, h: &str) -> usize {
     } else {
         0
     }
+}
+
+// ---------------------------------------------------------------------------------------------
+// Witness haystacks: a random string from (an approximation of) the pattern's language, so that
+// long literals, counted loops and lookbehind contexts are actually reached.
+
+pub struct Sampler {
+    pub groups: Vec<Vec<u32>>,
+    pub icase: bool,
+}
+
+fn other_case(c: u32) -> u32 {
+    match char::from_u32(c) {
+        Some(ch) => {
+            let up: Vec<char> = ch.to_uppercase().collect();
+            let lo: Vec<char> = ch.to_lowercase().collect();
+            if up.len() == 1 && up[0] != ch {
+                up[0] as u32
+            } else if lo.len() == 1 && lo[0] != ch {
+                lo[0] as u32
+            } else {
+                c
+            }
+        }
+        None => c,
+    }
+}
+
+impl Sampler {
+    pub fn new(icase: bool) -> Sampler {
+        Sampler { groups: vec![], icase }
+    }
+
+    fn ch(&self, src: &mut Src, c: u32, out: &mut Vec<u32>) {
+        if self.icase && src.chance(1, 3) {
+            out.push(other_case(c))
+        } else {
+            out.push(c)
+        }
+    }
+
+    fn class_item(&self, src: &mut Src, it: &ClassItem, alpha: &[u32]) -> u32 {
+        match it {
+            ClassItem::Ch(c) => *c,
+            ClassItem::Range(a, b) => {
+                if src.chance(1, 2) {
+                    *a
+                } else {
+                    (*a + src.below(b - a + 1)).min(*b)
+                }
+            }
+            ClassItem::Esc(e) => match *e {
+                b'd' => 0x30 + src.below(10),
+                b'w' => *src.pick(&[0x61, 0x5F, 0x39, 0x5A]),
+                b's' => *src.pick(&[0x20, 0x0A, 0x09, 0xA0, 0x2028]),
+                _ => *src.pick(alpha),
+            },
+            ClassItem::Prop { .. } => *src.pick(alpha),
+        }
+    }
+
+    pub fn sample(&mut self, src: &mut Src, n: &Node, alpha: &[u32], out: &mut Vec<u32>) {
+        match n {
+            Node::Empty | Node::Bol | Node::Eol | Node::Wb | Node::NotWb => {}
+            Node::Lit(c) => self.ch(src, *c, out),
+            Node::Raw(_) => out.push(*src.pick(alpha)),
+            Node::Dot => out.push(*src.pick(alpha)),
+            Node::Esc(e) => {
+                let c = self.class_item(src, &ClassItem::Esc(*e), alpha);
+                out.push(c)
+            }
+            Node::Prop { .. } => out.push(*src.pick(alpha)),
+            Node::Class { neg, items } => {
+                if *neg || items.is_empty() {
+                    out.push(*src.pick(alpha))
+                } else {
+                    let it = src.pick(items).clone();
+                    let c = self.class_item(src, &it, alpha);
+                    self.ch(src, c, out)
+                }
+            }
+            Node::ClassSet(cs) => self.sample_cs(src, cs, alpha, out),
+            Node::Cat(v) => {
+                for x in v {
+                    self.sample(src, x, alpha, out)
+                }
+            }
+            Node::Alt(v) => {
+                // groups in the arms not taken still need slots: walk them into a scratch buffer first
+                let k = src.below(v.len() as u32) as usize;
+                for (i, x) in v.iter().enumerate() {
+                    if i == k {
+                        self.sample(src, x, alpha, out)
+                    } else {
+                        self.skip(x)
+                    }
+                }
+            }
+            Node::Group { body, .. } => {
+                let idx = self.groups.len();
+                self.groups.push(vec![]);
+                let start = out.len();
+                self.sample(src, body, alpha, out);
+                self.groups[idx] = out[start..].to_vec();
+            }
+            Node::NonCap(b) | Node::Mods { body: b, .. } => self.sample(src, b, alpha, out),
+            Node::Look { behind, neg, body } => {
+                if *behind && !*neg {
+                    self.sample(src, body, alpha, out)
+                } else {
+                    self.skip(body)
+                }
+            }
+            Node::Quant { body, min, max, .. } => {
+                let hi = max.unwrap_or(min + 2).min(min + 2);
+                let k = if hi > *min { min + src.below(hi - min + 1) } else { *min };
+                let g0 = self.groups.len();
+                if k == 0 {
+                    self.skip(body)
+                }
+                for i in 0..k {
+                    if i > 0 {
+                        self.groups.truncate(g0);
+                    }
+                    self.sample(src, body, alpha, out)
+                }
+            }
+            Node::BackRef(k) => {
+                if !self.groups.is_empty() {
+                    let g = self.groups[*k as usize % self.groups.len()].clone();
+                    for c in g {
+                        self.ch(src, c, out)
+                    }
+                }
+            }
+            Node::NamedRef(_) => {}
+        }
+    }
+
+    fn skip(&mut self, n: &Node) {
+        for _ in 0..count_groups(n) {
+            self.groups.push(vec![]);
+        }
+    }
+
+    fn sample_cs(&mut self, src: &mut Src, cs: &Cs, alpha: &[u32], out: &mut Vec<u32>) {
+        if cs.neg || cs.ops.is_empty() {
+            out.push(*src.pick(alpha));
+            return;
+        }
+        let op = match cs.kind {
+            CsKind::Union => src.pick(&cs.ops).clone(),
+            _ => cs.ops[0].clone(),
+        };
+        match op {
+            CsOp::Ch(c) => self.ch(src, c, out),
+            CsOp::Range(a, b) => out.push(if src.chance(1, 2) { a } else { b }),
+            CsOp::Esc(e) => {
+                let c = self.class_item(src, &ClassItem::Esc(e), alpha);
+                out.push(c)
+            }
+            CsOp::Prop { .. } => out.push(*src.pick(alpha)),
+            CsOp::Q(strs) => {
+                if !strs.is_empty() {
+                    let s = src.pick(&strs).clone();
+                    for c in s {
+                        self.ch(src, c, out)
+                    }
+                }
+            }
+            CsOp::Nested(inner) => self.sample_cs(src, &inner, alpha, out),
+        }
+    }
+}
+
+/// junk + sample + junk
+pub fn witness_hay(src: &mut Src, n: &Node, fl: Fl, alpha: &[u32], junk: u32) -> String {
+    let mut out: Vec<u32> = vec![];
+    for _ in 0..src.below(junk + 1) {
+        out.push(*src.pick(alpha));
+    }
+    let mut s = Sampler::new(fl.i);
+    s.sample(src, n, alpha, &mut out);
+    for _ in 0..src.below(junk + 1) {
+        out.push(*src.pick(alpha));
+    }
+    out.truncate(64);
+    cps_to_string(&out)
 }
